@@ -48,6 +48,18 @@ theorem c04_framing_sound (d : RespIn) (date next : Bytes) (h : HandlerSane d) :
   rw [hc] at this
   exact this
 
+/-- **Neither length nor chunking ⇒ connection close — unconditionally.**  For EVERY descriptor (no
+    assumption on what the handler declared), if the final header fields carry no Content-Length,
+    no Transfer-Encoding and no Upgrade, and the response is one that can have a body (not HEAD,
+    not 204/205/304, not a successful CONNECT), then keep-alive is off: the client can determine
+    the end of the message because the server closes the connection after it. -/
+theorem c04_undelimited_closes (d : RespIn) (date : Bytes) (hm : d.meth ≠ .head)
+    (hb : isBodiless d.status = false) (hnt : ¬ (d.meth = .connect ∧ d.status = 200))
+    (hcl : Hdrs.has (respond d date).hdrs nContentLength = false)
+    (hte : Hdrs.has (respond d date).hdrs nTransferEncoding = false)
+    (hup : Hdrs.has (respond d date).hdrs nUpgrade = false) : (respond d date).keepAlive = false :=
+  undelimited_closes d date hm hb hnt hcl hte hup
+
 /-- **No body for HEAD / 204 / 205 / 304 — unconditionally.**  Whatever the handler queued,
     declared or streams later (no assumption on the descriptor at all), such a response consists of
     its header section only. -/
@@ -270,6 +282,8 @@ example : (respond exStream []).body = ofString "02\r\nhe\r\n3\r\nllo\r\n1\r\n!\
 example : rfcFraming false 200 (respond { exStream with ver11 := false } []).hdrs = .close ∧
     (respond { exStream with ver11 := false } []).keepAlive = false := by decide
 example : (respond { exStatic with meth := .head } []).body = [] := by decide
+example : Hdrs.has (respond { exStream with ver11 := false } []).hdrs nContentLength = false ∧
+    Hdrs.has (respond { exStream with ver11 := false } []).hdrs nTransferEncoding = false := by decide
 example : chunkStream true [ofString "abc", [], ofString "0123456789abcdef0"] true
     = ofString "3\r\nabc\r\n11\r\n0123456789abcdef0\r\n0\r\n\r\n" := by decide
 example : chunkSizeOk 1048577 := by unfold chunkSizeOk; decide
